@@ -11,6 +11,8 @@ claimed={
             note="Trusted: time stub (UTC day numbers; validated against package time on all days of years 1-9999), z3. Outside: windows with more than K periods, years outside the anchor windows (400-year periodicity argument only).", ref="DESIGN.md §6 C11"),
  "C07":dict(text="Bounded model checking by symbolic execution of the real scanner and parser (scanner.*, parser.*, directives.Range/Error) from /repo's SSA on input strings whose bytes are all symbolic (every byte string up to length n) and on directive templates with holes of k fully symbolic bytes; z3 decides no-panic, error-range, tree-containment, ordering, text-identity and gap (whitespace/comment only) assertions on every path; unicode/utf8 decoding is interpreted from the standard library source.",
             note="Trusted: exact SMT predicates for unicode.IsLetter/IsDigit generated from the toolchain tables; fmt message text with symbolic operands is abstract; ASCII fast path of utf8.DecodeRuneInString; z3 5.1.0. Outside: strings longer than n (quick 4, thorough 6) that are not instances of the 18 templates with k<=2 (thorough 3) symbolic bytes; very long tokens.", ref="DESIGN.md §6 C07"),
+ "C17":dict(text="Bounded model checking by symbolic execution of table.addThousandsSep, TextRenderer.numToString/renderCell/minLengthCell/Render and CSVRenderer.renderCell from /repo's SSA. Kernel A: every string [-]d{ni}[.d{nf}] (all digits symbolic). Kernel B: amount as a symbolic digit vector, cell text re-parsed and compared with an independent definition of half-away-from-zero rounding, width, blank-zero and sign. Kernel C: rendered tables (symbolic amounts, catalogue of multi-byte names chosen by forking) are rectangular with aligned separators. Kernel D: CSV cell is the exact amount (symbolic token equality + concrete 17-digit hazards).",
+            note="Trusted: decimal stub (incl. digit-vector StringFixed as a definitional extension), fatih/color modelled as plain Fprintf, z3. Outside: percent cells (float64), amounts beyond the stated digit counts, tables beyond the stated shapes, csv.Writer quoting.", ref="DESIGN.md §6 C17"),
 }
 na_reason={
  "C19":"goroutine interleavings of real sync/context/conc code cannot be encoded by the sequential SSA executor (no Go scheduler model); see DESIGN.md §7",
